@@ -65,6 +65,11 @@ template<typename DT_, typename IT_> void inst()
   Global::MeanFilter<DT_, IT_> gmf;
   vec4(mf, dv); vec4(mfb2, dvb2); vec4(mfb3, dvb3); vec4(gmf, dv);
 
+  // none filters (must not touch anything)
+  LAFEM::NoneFilter<DT_, IT_> nf;
+  LAFEM::NoneFilterBlocked<DT_, IT_, 2> nfb;
+  vec4(nf, dv); vec4(nfb, dvb2); nf.filter_mat(csr); nfb.filter_mat(b22);
+
   // compositions
   LAFEM::FilterChain<LAFEM::UnitFilter<DT_, IT_>, LAFEM::MeanFilter<DT_, IT_>, LAFEM::UnitFilter<DT_, IT_>> chain;
   vec4(chain, dv); chain.filter_mat(csr);
